@@ -1,25 +1,25 @@
 """C16 -- multi-DEX analysis is independent of how the code is split and ordered.
 
-Effect argument decided on the source (symbolic path execution, agstatic/xref_engine.py):
-(1) every write of `Analysis.add` is a keyed store self.<table>[k] = <fresh object> whose
-key is derived from the added item alone (class name, EncodedMethod, (class, name,
-descriptor) triple, string value), no store is guarded by a read of the tables (no
-first-wins / last-wins on other DEX content), no attribute of the Analysis is
-overwritten, and the only positional effect is self.vms.append(vm): with distinct class
-names these writes commute.  (2) `create_xref` hands each class of each DEX in self.vms
-to `_create_xref` and passes nothing else; the effects of `_create_xref` and
-`_resolve_method` on the Analysis tables are create-if-absent stores keyed by names whose
-value is a fresh object built from the key, every xref container is a set and is only
-`.add`ed to; every table these two functions read is filled for all DEX files before
-the first `_create_xref` call (stores reachable from `add`, helpers followed, or from a loop over
-all of self.vms that ends before the xref loop), never per DEX inside the xref loop.  (3) layering: inside `_create_xref`/`_resolve_method` the only calls that go
-through a single DEX are the reference decoders get_cm_string/type/method/field on the
-DEX of the instruction itself; definition lookups (get_encoded_field*, get_encoded_method*,
-get_class, get_field, get_method*) on one DEX are forbidden, as is indexing self.vms.
+Decided by abstract execution on model DEX files (agstatic/xref_model.py): `Analysis.__init__`, `Analysis.add`,
+`Analysis.create_xref` and everything they call are executed by the shared abstract interpreter (nothing of androguard
+is imported or run) on small model DEX objects -- classes, methods, fields, aligned reference pools, instructions with
+a concrete opcode, a reference index and a symbolic byte offset.  Then every public xref getter of every analysis
+object (and the lookup API) is evaluated the same way and the complete state is compared with the state the property
+prescribes for the model, computed independently from the Dalvik opcode table (agstatic/spec/dalvik.py).  Only computed
+results are judged, so helper methods, generators, dispatch tables, getattr through name tables, equivalent opcode
+tests, get-or-create idioms are all the same to the check; a VIOLATION is a positively computed difference (absent /
+unexpected record in an exactly evaluated set, wrong number of analysis objects, the analysed code raises); whatever
+the interpreter cannot evaluate is an analysis error (exit 2).
+
+Scenario for C16 (F6): two classes that call each other's methods, read and write each other's fields, instantiate /
+reference each other, load a common string and call a common external method are analysed (a) as one DEX, (b) split over
+two DEX files added in one order, (c) in the other order -- `add` for each DEX, then one `create_xref`.  Every xref
+getter, the lookup API and the number of analysis objects of (b) and (c) must equal (a).
 """
 from __future__ import annotations
 
 from ..model import ANALYSIS
+from ..xref_model import check_property
 from ..xref_engine import (Engine, XrefModel, Exec, Collector, Mut, rule_add_effects, rule_create_xref_driver, rule_xref_effects,
                            rule_layering, rule_recorders_commute, rule_fill_before_xref, run_mutants,
                            m_swap_args, m_set_arg, m_set_receiver, m_rename_call, m_delete_call, m_const, m_replace_src, b_rename_local)
@@ -29,18 +29,9 @@ OWN_MUTATION_ADEQUACY = True
 
 
 def core(sink, eng):
-    xm = XrefModel(eng)
-    rule_add_effects(sink, eng)
-    rule_create_xref_driver(sink, eng)
-    f = eng.func(ANALYSIS, "Analysis._resolve_method")
-    sink.analysed(f)
-    sink.analysed(xm.root)
-    rs = [(f, [s for s in Exec(eng, root_cls=eng.mod(ANALYSIS).cls("Analysis")).run(f) if not s.raised])]
-    rule_xref_effects(sink, xm, rs)
-    rule_fill_before_xref(sink, eng, xm, rs)
-    sink.floor("keyed_stores", 4)
-    rule_layering(sink, xm, rs)
-    rule_recorders_commute(sink, eng, xm.getters)
+    check_property(sink, eng.repo, "C16")
+    sink.floor("layouts_compared", 2)
+
 
 
 CX = "Analysis._create_xref"
